@@ -72,9 +72,7 @@ pub fn has_mi_run_in_wrapper(n: &MNode) -> bool {
 /// known_findings.json); the first matching class names the violation.
 pub fn input_trigger(input: &MNode) -> Option<&'static str> {
     let lookalike = regex::Regex::new(r#"xmlns:[[:alpha:]]|class *= *['"](MJX-|data-mjx-)|</?[[:alpha:]]+:"#).unwrap();
-    if input.tokens().iter().any(|t| lookalike.is_match(t.txt())) {
-        Some("text-resembling-markup")
-    } else if !all_tokens_consistent(input) {
+    if !all_tokens_consistent(input) {
         Some("type-inconsistent-token")
     } else if has_degenerate(input) {
         Some("degenerate-child")
@@ -82,6 +80,9 @@ pub fn input_trigger(input: &MNode) -> Option<&'static str> {
         Some("adjacent-mn")
     } else if has_mi_run_in_wrapper(input) {
         Some("mi-run-in-wrapper")
+    } else if input.tokens().iter().any(|t| lookalike.is_match(t.txt())) {
+        // repaired by a fix: commit (listed as fixed): named last so that it never hides another class
+        Some("text-resembling-markup")
     } else {
         None
     }
